@@ -145,10 +145,18 @@ def call(mod, q, k, v, m):
         return mod(tq, tk, tv, tm).numpy()
 
 
+def build_entry(case):
+    """the module as the case enters it: eager, or compiled with torch.jit.script (case["script"])"""
+    mod, anomalies = build(case)
+    if case.get("script"):
+        mod = torch.jit.script(mod)
+    return mod, anomalies
+
+
 def run_impl(case):
     """-> dict(out=array | None, exc=kind | None, anomalies=[...])"""
     try:
-        mod, anomalies = build(case)
+        mod, anomalies = build_entry(case)
     except Exception as e:
         return {"out": None, "exc": "build:" + exc_kind(e), "anomalies": []}
     q, k, v, m = arrays(case)
@@ -218,7 +226,17 @@ def oracle_tables(case):
         vals = fn(torch.tensor(ded, dtype=torch.float64)).tolist() if ded else []
         return [(Fraction(a), Fraction(b)) for a, b in zip(ded, vals)]
 
-    etbl = table(e, torch.exp)
+    if case.get("big"):
+        # scores of magnitude 1e4..1e6: exp overflows / underflows, so the table holds exp(x - M), M = the largest kept
+        # score of each softmax row.  Every row of such a case gets its own table entry set only if the rows share M,
+        # which the generator guarantees by producing a single row (per head); weights scaled by the positive constant
+        # exp(-M) give the same convex combination, and the theorems hold for every non-negative weight function.
+        kept = np.ones(e.shape, dtype=bool) if m is None else np.broadcast_to(
+            m[..., None] if case["flavour"] == "mha" else m, e.shape)
+        big_m = float(np.where(kept, e, -np.inf).max())
+        etbl = table(e, lambda t: torch.exp(torch.clamp(t - big_m, max=700.0)))  # masked scores may exceed M
+    else:
+        etbl = table(e, torch.exp)
     ttbl = table(pre, torch.tanh) if pre is not None else []
     return etbl, ttbl, float(np.abs(e).max()) if e.size else 0.0
 
@@ -355,7 +373,7 @@ def relations(case, res, rng_seed=0):
     kept_e, kept_f, kept_k, kept_v, eshape, fshape = kept_views(case)
     defined = kept_f.any(axis=axis)  # per output batch cell
     try:
-        mod, _ = build(case)
+        mod, _ = build_entry(case)
     except Exception as e:  # pragma: no cover
         return fails + [("rebuild", exc_kind(e))]
 
@@ -487,7 +505,7 @@ def gen_case(rng, flavour=None, bias_combo=None, negdim=None, opts=None):
             mb = mb[cut:]
     D = rng.choice([1, 2, 3])
     if flavour == "mha":
-        H = rng.choice([1, 2, 2, 3])
+        H = opts.get("H") or rng.choice([1, 2, 2, 3])
         inner = opts.get("inner") or rng.choice(SINGLE)
         dq = rng.choice([1, 2])
         dk = dq if inner == "dot" else rng.choice([1, 2])
@@ -536,6 +554,39 @@ def gen_case(rng, flavour=None, bias_combo=None, negdim=None, opts=None):
                     mv[idx][rng.randrange(T)] = True
         case["mask"] = [int(x) for x in marr.reshape(-1)]
     return case
+
+
+def gen_big(rng):
+    """one softmax row (per head) whose scores have magnitude 1e4..1e6: the kept scores may all lie far below any
+    finite 'very negative' constant, and far above/below the masked ones"""
+    fl = rng.choice(["dot", "general", "mha"])
+    opts = {"rank": 2, "axis": 0, "T": rng.choice([2, 3, 4, 5]), "mask": rng.choice(["full", "full", "full", "none"])}
+    if fl == "mha":
+        opts.update(H=1, inner=rng.choice(["dot", "general"]))
+    c = gen_case(rng, fl, negdim=False, opts=opts)
+    f = rng.choice([50, 50, 200, 800])
+    sgn = rng.choice([-1, 1])
+    mode = rng.choice(["anti", "anti", "mixed"])
+    q = [(abs(x) + 1) * f * sgn for x in c["q"]]
+    if mode == "anti":
+        k = [-(abs(x) + 1) * f * sgn for x in c["k"]]
+    else:
+        k = [x * f for x in c["k"]]
+    c["q"], c["k"] = q, k
+    if c["score"]["kind"] == "dot":
+        c["score"]["scale"] = rng.choice([[1, 1], [1, 2], [1, 1], [2, 1]])
+    c["big"] = True
+    return c
+
+
+def gen_script(rng, k):
+    """TorchScript entry point (torch.jit.script(module)(...)) of every flavour, mostly with a mask"""
+    fl = ["dot", "general", "concat", "mha", "mha", "mha"][k % 6]
+    opts = {"mask": "none" if k % 5 == 4 else rng.choice(["full", "full", "bcast", "lowrank"]),
+            "rank": rng.choice([2, 3, 3, 4])}
+    c = gen_case(rng, fl, negdim=(fl != "mha" and k % 4 == 1), opts=opts)
+    c["script"] = True
+    return c
 
 
 def gen_malformed(rng):
@@ -761,6 +812,14 @@ def run(chk, cases=None):
             c = gen_malformed(chk.rng)
             c["stream"] = "malformed"
             cases.append(c)
+        for i in range(600 if chk.tier == "thorough" else 90):
+            c = gen_big(chk.rng)
+            c["stream"] = "big-scores"
+            cases.append(c)
+        for i in range(360 if chk.tier == "thorough" else 54):
+            c = gen_script(chk.rng, i)
+            c["stream"] = "script-entry"
+            cases.append(c)
         chk.extra["exhaustive"] = False
         chk.extra["enumeration_scope"] = ("mha: all 16 bias combinations x 3 wrapped flavours x {no mask, mask}; single: 3 flavours x "
                                           "key rank 2..4(5) x every sequence axis x {no mask, full, broadcast, lower-rank mask} x "
@@ -777,6 +836,19 @@ def run(chk, cases=None):
         chk.count("mask=" + ("none" if c.get("mshape") is None else
                              "lowrank" if len(c["mshape"]) < len(c["kshape"]) - 1 else "rank-e"))
         chk.count("outcome=" + ("raise" if r["out"] is None else "ok"))
+        chk.count("entry=" + ("script" if c.get("script") else "eager"))
+        if c.get("big") and r["out"] is not None:
+            try:
+                q_, k_, v_, m_ = arrays(c)
+                if c["flavour"] == "mha":
+                    q_, k_, _ = head_inputs(c)
+                e_, _ = np_scores(c["score"], q_, k_, axis_of(c))
+                kept_ = np.ones(e_.shape, bool) if m_ is None else np.broadcast_to(
+                    m_[..., None] if c["flavour"] == "mha" else m_, e_.shape)
+                mx = float(np.where(kept_, e_, -np.inf).max())
+                chk.count("big_max_kept_score=" + ("<-1e4" if mx < -1e4 else ">1e4" if mx > 1e4 else "mid"))
+            except Exception:
+                chk.count("big_max_kept_score=?")
         if c["flavour"] == "mha":
             chk.count("mha_bias=" + "".join("1" if b else "0" for b in c["mha"]["bias"]))
             chk.count("mha_heads=%d" % c["mha"]["H"])
